@@ -157,6 +157,12 @@ mut('c03-divergence-accumulate', 'C03', 'odl/discr/diff_ops.py',
 mut('c03-pointwise-norm-reads-out', 'C03', 'odl/operator/tensor_ops.py',
     "    def _call_vecfield_1(self, vf, out):\n        \"\"\"Implement ``self(vf, out)`` for exponent 1.\"\"\"\n        vf[0].ufuncs.absolute(out=out)",
     "    def _call_vecfield_1(self, vf, out):\n        \"\"\"Implement ``self(vf, out)`` for exponent 1.\"\"\"\n        out += vf[0].ufuncs.absolute() - out * (1 - 1e-9)")
+mut('c03-fftw-plan-any-layout', 'C03', 'odl/trafos/backends/pyfftw_bindings.py',
+    "    if fftw_plan_in is not None and (\n            array_in.strides != fftw_plan_in.input_strides or",
+    "    if fftw_plan_in is not None and array_in.ndim > 99 and (\n            array_in.strides != fftw_plan_in.input_strides or")
+mut('c03-matrix-dot-out-any-layout', 'C03', 'odl/operator/tensor_ops.py',
+    "                    if out_arr.flags.c_contiguous:\n                        self.matrix.dot(x, out=out_arr)",
+    "                    if True:\n                        self.matrix.dot(x, out=out_arr)")
 
 # ---- C10 -----------------------------------------------------------------
 mut('c10-ccl1-guard', 'C10', 'odl/solvers/nonsmooth/proximal_operators.py',
